@@ -1,8 +1,8 @@
 SPECIFICATION Spec
 CONSTANTS
- Content <- MCContent
- Systems <- MCSystemsQuick
- BuildFiles <- MCBuild3
+ Content <- MCContentL
+ Systems <- MCSystemsL
+ BuildFiles <- MCBuildL
  DevVolLost = FALSE
  DevVolOverwritten = FALSE
  DevUserRegen = FALSE
